@@ -64,6 +64,7 @@ fn every_message(t: &mut u64, sender: &str, id: u64) -> Vec<Step> {
     push(Op::OwnAccept);
     push(Op::Burn { id });
     push(Op::OwnRenounce);
+    push(Op::Migrate);
     v
 }
 
@@ -297,6 +298,90 @@ fn scripted(v: Variant) -> Vec<Hist> {
     for s in bad {
         out.push(Hist { setup: s, steps: vec![st(T0 + 1, PUPPET, mint(1, "alice")), st(T0 + 2, "creator", upd(|u| u.description = Some("k".into())))] });
     }
+    // S9: migration to the sg721-updatable code by the wasm admin (= creator), placed between
+    // freeze / enable / update operations; the cw2 record says which deployment it is
+    {
+        // (a) whatever the variant: tokens, approvals, freezes, then migrate attempts by a
+        // stranger, the minter and the admin, then every message again
+        let mut steps = vec![
+            st(T0 + 1, PUPPET, mint(1, "alice")),
+            st(T0 + 2, PUPPET, Op::Mint { id: 2, owner: "bob".into(), uri: None }),
+            st(T0 + 3, "alice", Op::Approve { spender: "carol".into(), id: 1, exp: None }),
+            st(T0 + 4, "bob", Op::ApproveAll { operator: "carol".into(), exp: None }),
+            st(T0 + 5, PUPPET, Op::OwnTransfer { new_owner: "minter2".into(), exp: None }),
+            st(T0 + 6, "creator", Op::UpdateTokenMd { id: 1, uri: Some(URIS[1].into()) }),
+            st(T0 + 7, "creator", Op::FreezeTokenMd),
+            st(T0 + 8, "creator", Op::FreezeInfo),
+            st(T0 + 9, "alice", Op::Migrate),
+            st(T0 + 10, PUPPET, Op::Migrate),
+            st(T0 + 11, "creator", Op::Migrate),
+            st(T0 + 12, "creator", Op::Migrate),
+            stf(T0 + 13, "creator", Op::EnableUpdatable, vec![(NATIVE, ENABLE_FEE)]),
+            st(T0 + 14, "creator", Op::UpdateTokenMd { id: 1, uri: Some(URIS[2].into()) }),
+            st(T0 + 15, "minter2", Op::OwnAccept),
+        ];
+        let mut t = T0 + 20;
+        for who in ["creator", PUPPET] {
+            steps.extend(every_message(&mut t, who, 1));
+        }
+        out.push(Hist { setup: base.clone(), steps });
+    }
+    if matches!(v, Variant::Base | Variant::Updatable) {
+        let names: Vec<&str> = if v == Variant::Base { vec![NAME_BASE, NAME_BASE_LEGACY] } else { vec![NAME_UPD, NAME_UPD_LEGACY] };
+        let mut pairs: Vec<(String, String)> = vec![];
+        for n in &names {
+            for ver in version_grid() {
+                pairs.push((n.to_string(), ver));
+            }
+        }
+        // names the contract does not accept (an sg721-base record on updatable code is not a
+        // reachable deployment: its migration would legitimately initialise the flags)
+        pairs.push(("crates.io:sg721-nt".into(), "3.2.1".into()));
+        pairs.push(("sg721-updatables".into(), "3.2.1".into()));
+        for (i, (n, ver)) in pairs.into_iter().enumerate() {
+            let setup = Setup { cw2: Some((n, ver)), ..base.clone() };
+            // (b) freeze -> migrate -> enable -> update: a frozen URI must never change
+            out.push(Hist {
+                setup: setup.clone(),
+                steps: vec![
+                    st(T0 + 1, PUPPET, mint(1, "alice")),
+                    st(T0 + 2, PUPPET, Op::Mint { id: 2, owner: "bob".into(), uri: None }),
+                    st(T0 + 3, "creator", Op::UpdateTokenMd { id: 1, uri: Some(URIS[1].into()) }),
+                    st(T0 + 4, "creator", Op::FreezeTokenMd),
+                    st(T0 + 5, "bob", Op::Migrate),
+                    st(T0 + 6, "creator", Op::Migrate),
+                    stf(T0 + 7, "creator", Op::EnableUpdatable, vec![(NATIVE, ENABLE_FEE)]),
+                    st(T0 + 8, "creator", Op::UpdateTokenMd { id: 1, uri: Some(URIS[2].into()) }),
+                    st(T0 + 9, "creator", Op::UpdateTokenMd { id: 2, uri: Some(URIS[2].into()) }),
+                    st(T0 + 10, "creator", Op::FreezeTokenMd),
+                    st(T0 + 11, "creator", Op::Migrate),
+                    st(T0 + 12, "creator", Op::UpdateTokenMd { id: 1, uri: None }),
+                    st(T0 + 13, "bob", Op::Burn { id: 2 }),
+                    st(T0 + 14, PUPPET, mint(3, "carol")),
+                ],
+            });
+            // (c) no freeze: enabled stays enabled unless the record is an sg721-base one;
+            // collection-info freeze and pending ownership survive the code swap
+            if i % 2 == 0 {
+                out.push(Hist {
+                    setup,
+                    steps: vec![
+                        st(T0 + 1, PUPPET, mint(1, "alice")),
+                        st(T0 + 2, "creator", Op::FreezeInfo),
+                        st(T0 + 3, PUPPET, Op::OwnTransfer { new_owner: "minter2".into(), exp: Some(Exp::At(T0 + 50)) }),
+                        st(T0 + 4, "creator", Op::Migrate),
+                        st(T0 + 5, "creator", Op::UpdateTokenMd { id: 1, uri: Some(URIS[2].into()) }),
+                        st(T0 + 6, "creator", upd(|u| u.description = Some("after migrate".into()))),
+                        stf(T0 + 7, "creator", Op::EnableUpdatable, vec![(NATIVE, ENABLE_FEE)]),
+                        st(T0 + 8, "creator", Op::UpdateTokenMd { id: 1, uri: None }),
+                        st(T0 + 9, "minter2", Op::OwnAccept),
+                        st(T0 + 10, PUPPET, mint(2, "alice")),
+                        st(T0 + 11, "alice", Op::Transfer { to: "bob".into(), id: 1 }),
+                    ],
+                });
+            }
+        }
+    }
     // S8: update_collection_info field semantics and guards
     {
         let mut steps = vec![];
@@ -341,6 +426,10 @@ fn random_hist(v: Variant, rng: &mut Rng, len: usize) -> Runner {
     }
     if rng.chance(1, 4) {
         setup.info.royalty = None;
+    }
+    if rng.chance(1, 3) && matches!(v, Variant::Base | Variant::Updatable) {
+        let n = if v == Variant::Base { *rng.pick(&[NAME_BASE, NAME_BASE_LEGACY]) } else { *rng.pick(&[NAME_UPD, NAME_UPD_LEGACY]) };
+        setup.cw2 = Some((n.to_string(), rng.pick(&version_grid()).clone()));
     }
     let mut r = Runner::new(&setup);
     if !r.alive() {
@@ -458,7 +547,8 @@ fn random_hist(v: Variant, rng: &mut Rng, len: usize) -> Runner {
                 let uri = if rng.chance(1, 4) { None } else { Some(rng.pick(&URIS).to_string()) };
                 (s, Op::UpdateTokenMd { id: pick_tok(rng), uri })
             }
-            95..=96 => ((if rng.chance(1, 2) { creator.clone() } else { any(rng) }), Op::FreezeTokenMd),
+            95 => ((if rng.chance(1, 2) { creator.clone() } else { any(rng) }), Op::FreezeTokenMd),
+            96 => ((if rng.chance(2, 3) { "creator".to_string() } else { any(rng) }), Op::Migrate),
             _ => {
                 let s = if valid { creator.clone() } else { any(rng) };
                 let amt = *rng.pick(&[ENABLE_FEE - 1, ENABLE_FEE, ENABLE_FEE, ENABLE_FEE + 1]);
@@ -484,6 +574,8 @@ pub fn monitor(r: &Runner) -> Option<(String, String)> {
     }
     let mut info_frozen: Option<(usize, InfoObs)> = None;
     let mut md_frozen: Option<usize> = None;
+    // the code it runs: a successful migration makes any collection an updatable one
+    let mut updatable = v.updatable();
     for (i, rec) in r.recs.iter().enumerate() {
         let (b, a) = (&rec.before, &rec.after);
         let sender = &rec.step.sender;
@@ -517,6 +609,27 @@ pub fn monitor(r: &Runner) -> Option<(String, String)> {
                 }
             }
         }
+        // the minter changes only by the pending owner's accept or the minter's renounce
+        if a.minter != b.minter {
+            let legit = rec.ok
+                && match rec.step.op {
+                    Op::OwnAccept => b.pending.as_deref() == Some(sender.as_str()) && a.minter.as_deref() == Some(sender.as_str()),
+                    Op::OwnRenounce => b.minter.as_deref() == Some(sender.as_str()) && a.minter.is_none(),
+                    _ => false,
+                };
+            if !legit {
+                return Some(("minter-changed-without-handover".into(), format!("step {}: minter {:?} -> {:?} after {:?} from {}", i, b.minter, a.minter, rec.step.op, sender)));
+            }
+        }
+        // tokens leave only through a burn of that id (a migration keeps ids and count)
+        for t in &b.tokens {
+            if a.token(&t.id).is_none() {
+                let by_burn = rec.ok && matches!(&rec.step.op, Op::Burn { id } if token_name(*id) == t.id);
+                if !by_burn {
+                    return Some(("token-removed-without-burn".into(), format!("step {}: token {} vanished after {:?} from {}", i, t.id, rec.step.op, sender)));
+                }
+            }
+        }
         // creator-editable fields: only the creator's update changes them; never after a freeze
         if a.info.creator_fields() != b.info.creator_fields() {
             let by_creator = rec.ok && matches!(rec.step.op, Op::UpdateInfo(_)) && *sender == b.info.creator;
@@ -540,7 +653,7 @@ pub fn monitor(r: &Runner) -> Option<(String, String)> {
         // token metadata
         if rec.ok {
             if let Op::UpdateTokenMd { id, .. } = &rec.step.op {
-                if !v.updatable() || *sender != b.info.creator || b.token(&token_name(*id)).is_none() {
+                if !updatable || *sender != b.info.creator || b.token(&token_name(*id)).is_none() {
                     return Some(("metadata-update-unauthorized".into(), format!("step {}: update_token_metadata({}) from {} accepted (creator {}, token exists: {})", i, token_name(*id), sender, b.info.creator, b.token(&token_name(*id)).is_some())));
                 }
             }
@@ -551,7 +664,7 @@ pub fn monitor(r: &Runner) -> Option<(String, String)> {
                     if let Some(at) = md_frozen {
                         return Some(("frozen-metadata-changed".into(), format!("step {}: token {} uri {:?} -> {:?} after the metadata freeze of step {}", i, t.id, bt.uri, t.uri, at)));
                     }
-                    let legit = rec.ok && v.updatable() && *sender == b.info.creator && matches!(&rec.step.op, Op::UpdateTokenMd { id, .. } if token_name(*id) == t.id);
+                    let legit = rec.ok && updatable && *sender == b.info.creator && matches!(&rec.step.op, Op::UpdateTokenMd { id, .. } if token_name(*id) == t.id);
                     if !legit {
                         return Some(("uri-changed-unauthorized".into(), format!("step {}: token {} uri changed by {:?} from {}", i, t.id, rec.step.op, sender)));
                     }
@@ -564,6 +677,9 @@ pub fn monitor(r: &Runner) -> Option<(String, String)> {
         }
         if rec.ok && matches!(rec.step.op, Op::FreezeTokenMd) && md_frozen.is_none() {
             md_frozen = Some(i);
+        }
+        if rec.ok && matches!(rec.step.op, Op::Migrate) {
+            updatable = true;
         }
     }
     None
@@ -639,7 +755,7 @@ pub fn run(a: &Args) {
         }
     }
     rep.distinct_nontrivial = distinct.len() as u64;
-    rep.rule = "evaluations = instantiations + executed calls, each followed by the full set of queries. Per variant (sg721-base, sg721-updatable fresh and migrated-from-base, sg721-metadata-onchain, sg721-nt): scripted histories for duplicate ids / foreign minters / burn and re-mint, two-step ownership hand-over with expiry at t-1,t,t+1 and renounce, every mutating message from creator/minter/token owner/stranger after a collection-info freeze and on a fresh collection, token-metadata update/freeze/enable with fee-1,fee,fee+1 and wrong coins, approvals and operators with expirations at t-1,t,t+1, send to contract/account, instantiation guards (non-contract sender, funds, description 512/513 bytes incl. multi-byte, URL pool), update_collection_info field semantics; then random histories of 20-45 calls, ~75% from the role the call needs. Non-trivial = call (distinct by variant, message, sender, funds, outcome and prior observation) that was not rejected merely because the variant's ExecuteMsg lacks the message.".into();
+    rep.rule = "evaluations = instantiations + executed calls, each followed by the full set of queries. Per variant (sg721-base, sg721-updatable fresh and migrated-from-base, sg721-metadata-onchain, sg721-nt): scripted histories for duplicate ids / foreign minters / burn and re-mint, two-step ownership hand-over with expiry at t-1,t,t+1 and renounce, every mutating message from creator/minter/token owner/stranger after a collection-info freeze and on a fresh collection, token-metadata update/freeze/enable with fee-1,fee,fee+1 and wrong coins, approvals and operators with expirations at t-1,t,t+1, send to contract/account, instantiation guards (non-contract sender, funds, description 512/513 bytes incl. multi-byte, URL pool), update_collection_info field semantics, admin migrations to the sg721-updatable code (by stranger/minter/admin) between freeze / enable / update operations over a cw2 grid (current and legacy names x versions 0.15.9, 0.16.0, 2.9.9, 3.0.0, 3.0.9, 3.1.0, 3.1.1, 3.2.1, current-1, current, current+1, next major); then random histories of 20-45 calls, ~75% from the role the call needs. Non-trivial = call (distinct by variant, message, sender, funds, outcome and prior observation) that was not rejected merely because the variant's ExecuteMsg lacks the message.".into();
     out.write_cases("C09", "From LP Require Import Collection C09Corr.", "c09_case", "c09_check", &coq_cases, 6, &mut rep);
     out.finish(&rep);
     println!("C09 harness: {} evaluations in {} histories, {} monitor violations", rep.evaluations, coq_cases.len(), nviol);
